@@ -19,8 +19,10 @@
          workbook's calculation settings).
   Numbers are exact `Rat`; Python `None` is `none`.  A formula is a list of reads (cells in the order the compiled
   Python expression evaluates them — all pycel functions including IF are eager) plus a pure combining function.
-  Import-free (core Lean only).
+  Core Lean only; the constants (`rel`, the comparison of close_enough, the defaults 10000 / 0.01) come from
+  Generated/IterConsts.lean, regenerated from the live source on every run (harness/tablegen/c06.py).
 -/
+import Pycel.Generated.IterConsts
 namespace Pycel.Iter
 
 /-- a cell value: `none` = Python `None` (blank), `some q` = a number -/
@@ -31,14 +33,22 @@ def num (v : V) : Rat := v.getD 0
 
 def rabs (x : Rat) : Rat := if x < 0 then -x else x
 
-/-- `rel` of `_CellBase.close_enough` -/
-def rel : Rat := 1 / 100000
+/-- `rel` of `_CellBase.close_enough` (live signature default) -/
+def rel : Rat := (Gen.closeEnoughRelNum : Rat) / (Gen.closeEnoughRelDen : Rat)
 
-/-- `self.close_enough(self._prev_value, tol=tolerance)`: both numbers → `abs(prev - cur) < (1 + rel) * tol`,
+/-- default limits of `_evaluate_iterative` (live literals) -/
+def defaultIterations : Int := (Gen.iterDefaultIterations : Int)
+def defaultTol : Rat := (Gen.iterDefaultTolNum : Rat) / (Gen.iterDefaultTolDen : Rat)
+
+/-- the comparison of `close_enough` with a tolerance: `<=` (current code) or `<` -/
+def withinTol (d bound : Rat) : Bool :=
+  if Gen.closeEnoughInclusive then decide (d ≤ bound) else decide (d < bound)
+
+/-- `self.close_enough(self._prev_value, tol=tolerance)`: both numbers → `abs(prev - cur) <= (1 + rel) * tol`,
     otherwise `cur == prev` -/
 def closeEnough (tol : Rat) (cur prev : V) : Bool :=
   match cur, prev with
-  | some x, some y => decide (rabs (y - x) < (1 + rel) * tol)
+  | some x, some y => withinTol (rabs (y - x)) ((1 + rel) * tol)
   | none, none => true
   | _, _ => false
 
@@ -148,24 +158,24 @@ def resolveIter (arg cfg : Option Int) : Int :=
   match arg with
   | some a => if a ≠ 0 then a else
     match cfg with
-    | some b => if b ≠ 0 then b else 10000
-    | none => 10000
+    | some b => if b ≠ 0 then b else defaultIterations
+    | none => defaultIterations
   | none =>
     match cfg with
-    | some b => if b ≠ 0 then b else 10000
-    | none => 10000
+    | some b => if b ≠ 0 then b else defaultIterations
+    | none => defaultIterations
 
 /-- Python `a or b or 0.01` -/
 def resolveTol (arg cfg : Option Rat) : Rat :=
   match arg with
   | some a => if a ≠ 0 then a else
     match cfg with
-    | some b => if b ≠ 0 then b else 1 / 100
-    | none => 1 / 100
+    | some b => if b ≠ 0 then b else defaultTol
+    | none => defaultTol
   | none =>
     match cfg with
-    | some b => if b ≠ 0 then b else 1 / 100
-    | none => 1 / 100
+    | some b => if b ≠ 0 then b else defaultTol
+    | none => defaultTol
 
 /-- fuel of the loop: the iteration limit itself (at least one pass always runs) -/
 def loopFuel (N : Int) : Nat := if N ≤ 1 then 1 else N.toNat
